@@ -10,6 +10,7 @@ import (
 	"sort"
 	"strconv"
 	"strings"
+	"time"
 
 	"wtfverif/checker/internal/load"
 	"wtfverif/checker/internal/report"
@@ -26,6 +27,17 @@ func main() {
 	dump := flag.String("symx", "", "debug: print the symbolic rendering of pkgsuffix:recv:func (e.g. internal/history:SearchHistory:AddEntry)")
 	mo := flag.Bool("maporder", false, "debug: classify all map range loops")
 	flag.Parse()
+	// an analysis that does not come back is a broken check, not a pass: give
+	// up loudly (the quick tier takes seconds, the thorough tier minutes)
+	limit := 15 * time.Minute
+	if *tier == "thorough" {
+		limit = 90 * time.Minute
+	}
+	time.AfterFunc(limit, func() {
+		fmt.Printf("ERROR analysis of %s did not finish within %v\n", *prop, limit)
+		fmt.Printf("VIOLATION property=%s replay=%s/evidence/replay/%s-timeout.json\n", *prop, *verif, *prop)
+		os.Exit(1)
+	})
 	if *mo {
 		p, err := load.Load(*repo, "linux", "amd64")
 		if err != nil {
